@@ -27,8 +27,10 @@ type CountFile struct {
 
 func (f *CountFile) Readable() bool { return f.Kind == "ok" || f.Kind == "empty" }
 
-// Week is the name of the week a file belongs to: the date of its recorded end.
-func (f *CountFile) Week() string { return f.End.UTC().Format("2006-01-02") }
+// Week is the name of the week a file belongs to: the date of its recorded end,
+// as recorded (the library records UTC; a file recorded with another offset
+// names its week by the date written in it).
+func (f *CountFile) Week() string { return f.End.Format("2006-01-02") }
 
 // ExpandBuckets is the documented counter-expression syntax:
 // "chart:{a,b}" names the counters "chart:a" and "chart:b"; a name without
